@@ -38,7 +38,11 @@ RULE = ("streams of 1..k valid frames per connection type with sizes straddling 
         "connection objects of one type with interleaved reads (objects created at first use), and multi-MiB frames "
         "(1/5/17 MiB; 16 MiB-1 for Companion) with a handful of cuts on the real code only; and the layer above "
         "(fake listener / request handler) raising on its k-th call, every k, compared with the one-read stream "
-        "under the same fault (MRP, Companion, data channel, HTTP server)")
+        "under the same fault (MRP, Companion, data channel, HTTP server); and other events between the reads: "
+        "enable_encryption called once the last clear-text frame was delivered while 1..N-1 bytes of the next "
+        "(encrypted) frame are already buffered (Companion, MRP; reference: the read ends on the frame boundary), and "
+        "the caller of an HTTP request giving up (task cancelled, as a timeout does) after j reads of its response in a "
+        "strictly sequential exchange (reference: the whole response arrives after the caller gave up)")
 ASSUMPTIONS = [
     "asyncio calls data_received sequentially with non-empty chunks and closes the transport when it raises",
     "ChaCha20-Poly1305 is a parameter of the model: the Lean driver is told the plaintext of each HAP block",
@@ -48,6 +52,11 @@ ASSUMPTIONS = [
     "a consumer fault is injected by call index; the pinned code swallows it for MRP, Companion and the HTTP server "
     "(framing goes on) and lets it escape data_received for the data channel (asyncio then closes the transport: the "
     "harness stops feeding); EventChannel and HttpConnection call no user code while receiving",
+    "events between reads are applied where the pinned code defines the outcome: encryption is switched on only while no "
+    "complete encrypted frame has been read yet (a complete one in the same read as the last clear-text frame would be "
+    "handed up undecrypted by the pinned code - the device does not send before the client does), an abandoned request's "
+    "successor is sent after the late response arrived completely (otherwise C03's known FIFO mismatch D9 applies); "
+    "HAPSession.enable / receive_processor switching mid-stream and close-and-reuse of a connection object are not exercised",
     "sends and other connections are operations that leave the receive state untouched in the model "
     "(C02_sends_irrelevant, C02_connections_independent); the harness checks the real objects behave so",
 ]
@@ -228,12 +237,16 @@ def mrp_plain(target):
 
 
 def build_mrp(rng, spec):
-    enc = spec["enc"]
-    keys = (rng.bytes_(32), rng.bytes_(32))
-    st = Stream("mrp-enc" if enc else "mrp", spec, keys)
-    peer = Peer(keys[1], 8) if enc else None
+    enc0 = spec["enc"]
+    switch = spec.get("switch_at")      # frames from this index on are encrypted: the application
+    keys = (rng.bytes_(32), rng.bytes_(32))  # enables encryption once the frame before it was delivered
+    st = Stream("mrp-enc" if enc0 else "mrp", spec, keys)
+    st.switch_at = switch
+    peer = Peer(keys[1], 8) if (enc0 or switch is not None) else None
     sizes = spec["sizes"]
+    st.ends = []
     for i, size in enumerate(sizes):
+        enc = enc0 or (switch is not None and i >= switch)
         if i == len(sizes) - 1:
             st.probe_at = len(st.wire)
         plain = mrp_plain(size - 16 if enc else size)
@@ -247,6 +260,7 @@ def build_mrp(rng, spec):
             st.add("body", payload)
         st.descs.append(sig(payload))
         st.contents.append(sig(plain))
+        st.ends.append(len(st.wire))
     return st.finish()
 
 
@@ -254,12 +268,16 @@ COMPANION_TYPES = [1, 3, 4, 5, 6, 7, 8, 9, 10, 11, 16, 17, 18, 32, 33, 34]
 
 
 def build_companion(rng, spec):
-    enc = spec["enc"]
+    enc0 = spec["enc"]
+    switch = spec.get("switch_at")
     keys = (rng.bytes_(32), rng.bytes_(32))
-    st = Stream("companion-enc" if enc else "companion", spec, keys)
-    peer = Peer(keys[1], 12) if enc else None
+    st = Stream("companion-enc" if enc0 else "companion", spec, keys)
+    st.switch_at = switch
+    peer = Peer(keys[1], 12) if (enc0 or switch is not None) else None
     sizes = spec["sizes"]
+    st.ends = []
     for i, size in enumerate(sizes):
+        enc = enc0 or (switch is not None and i >= switch)
         if i == len(sizes) - 1:
             st.probe_at = len(st.wire)
         ftype = rng.choice(COMPANION_TYPES)
@@ -275,6 +293,7 @@ def build_companion(rng, spec):
             st.add("body", payload)
         st.descs.append("%d.%s" % (ftype, sig(payload)))
         st.contents.append([ftype, sig(plain)])
+        st.ends.append(len(st.wire))
     return st.finish()
 
 
@@ -690,8 +709,16 @@ class Session:
                 if t.done() and not t.cancelled():
                     t.exception()
 
+        def cancel(i):
+            """The caller of request i gives up (timeout / task cancelled): send_and_receive's
+            `finally` takes the pending request out of the queue."""
+            if i < len(self.tasks) and not self.tasks[i].done():
+                self.tasks[i].cancel()
+            collect()
+
         self.call = call
         self.send_op = issue
+        self.cancel_op = cancel
         self.close = close
         self.rest = lambda: [f() for f in rest]
 
@@ -783,9 +810,11 @@ FRAMER = {"mrp": "mrp", "mrp-enc": "mrp", "companion": "companion", "companion-e
 class Run:
     """One real connection object fed read by read, with the application's sends in between."""
 
-    def __init__(self, st, cuts, sends=None, initial=None, fault=None):
+    def __init__(self, st, cuts, sends=None, initial=None, fault=None, ctl=None):
         self.st = st
         self.fault = fault
+        self.ctl = {int(k): v for k, v in (ctl or {}).items()}       # read index -> other operations before it
+        self.enabled = False
         self.chunks = [c for c in split_at(st.wire, cuts) if c]
         self.sends = {int(k): v for k, v in (sends or {}).items()}   # read index -> sends just before it
         self.initial = initial
@@ -801,10 +830,21 @@ class Run:
                 self.sess.send()
         for _ in range(self.sends.get(self.i, 0)):
             self.sess.send()
+        for op in self.ctl.get(self.i, []):
+            if op == "send":
+                self.sess.send()
+            elif op.startswith("cancel:"):
+                self.sess.cancel_op(int(op[7:]))
         ob = self.sess.feed(self.chunks[self.i])
         self.trace.append(ob)
         self.i += 1
         self.dead = bool(ob["exc"])
+        switch = getattr(self.st, "switch_at", None)
+        if switch is not None and not self.enabled and len(self.sess.up) >= switch:
+            # what CompanionProtocol._setup_encryption / MRP pair-verify do: a task that was waiting
+            # for the last clear-text frame runs after data_received returned and turns encryption on
+            self.enabled = True
+            self.sess.obj.enable_encryption(self.st.keys[0], self.st.keys[1])
 
     def done(self):
         return self.dead or self.i >= len(self.chunks)
@@ -816,9 +856,9 @@ class Run:
         return self.trace, self.sess.up
 
 
-def run_real(st, cuts, sends=None, initial=None, fault=None):
+def run_real(st, cuts, sends=None, initial=None, fault=None, ctl=None):
     """Feed the stream cut at `cuts` (+ the probe as its own read) to a fresh real object."""
-    r = Run(st, cuts, sends, initial, fault)
+    r = Run(st, cuts, sends, initial, fault, ctl)
     while not r.done():
         r.step()
     return r.finish()
@@ -903,6 +943,19 @@ def parse_model(st, answer):
             msgs, rest = f
             out.append({"descs": [] if msgs == "-" else msgs.split(","), "rest": [int(rest)], "blocks": None, "err": err})
     return out
+
+
+def compare_buffers(st, trace, model):
+    """Reduced comparison (reads processed, exception, buffer lengths) for cases in which the
+    layer above does not see every frame (a response nobody waits for any more)."""
+    if len(trace) != len(model):
+        return "number of reads processed: impl %d model %d" % (len(trace), len(model))
+    for i, (ob, mo) in enumerate(zip(trace, model)):
+        if (ob["exc"] is None) != (mo["err"] is None):
+            return "read %d: impl exception %s, model %s" % (i, ob["exc"], mo["err"])
+        if ob["rest"] != mo["rest"]:
+            return "read %d: residual buffer impl %s model %s" % (i, ob["rest"], mo["rest"])
+    return None
 
 
 def compare(st, trace, model, fault=None):
@@ -1073,7 +1126,7 @@ def specs(ctx, rng):
     add("data", kinds=["one", "empty", "one"], zero_block=True)
     add("data", "light", kinds=["big", "one", "big", "empty"])
     # sweep of the flush position under the upper framer: every plaintext prefix length
-    for k in range(1, ctx.scale(230, 400)):
+    for k in range(1, ctx.scale(190, 400)):
         add("data", "blocks", kinds=["empty", "one", "empty"], send_at=k)
         for target in ("event", "http-hap", "server-hap"):
             add("http", "blocks", target=target, kinds=["nobody", "small", "nobody"], send_at=k)
@@ -1302,6 +1355,7 @@ def run(ctx):
         evaluate(ctx, path, spec, st, cases, answers[off:off + cnt], real)
     for g in groups:
         evaluate_multi(ctx, g, answers)
+    events_phase(ctx, rng.fork("events"))
     large_phase(ctx, rng.fork("large"))
     replay_d1(ctx)
 
@@ -1365,6 +1419,126 @@ def evaluate_multi(ctx, g, answers):
             ctx.fail("%s:multi-connection:delivered-differs" % st.target, dict(case, member=j), _clip(up), _clip(st.base[0]),
                      "connection %d of %d live connections with interleaved reads delivers %d items, alone %d"
                      % (j, len(members), len(up), len(st.base[0])))
+
+
+# --------------------------------------------------------------------------- events between reads
+
+def event_cases(ctx, rng):
+    """(spec, [(label, cuts, extra)]) — operations on the connection, other than sends, that
+    happen between the reads of a split stream:
+    * the application turns encryption on after the last clear-text frame was delivered, while
+      the read that delivered it already holds the first bytes of the next (encrypted) frame;
+    * the caller of an HTTP request gives up (timeout/cancel) while its response is half received."""
+    out = []
+    for family in ("companion", "mrp"):
+        for sizes, s in (([5, 0, 9, 30, 4, 2], 2), ([3, 20, 1], 1), ([2, 140, 7, 3], 1)):
+            out.append(({"family": family, "enc": False, "sizes": sizes, "switch_at": s}, "switch"))
+    for target in ("http", "http-hap"):
+        for kinds in (["small", "nobody", "small", "zero"], ["nobody", "small", "small"]):
+            out.append(({"family": "http", "target": target, "kinds": kinds, "sends": "per-frame"}, "cancel"))
+    return out
+
+
+def events_phase(ctx, rng):
+    plan, lines = [], []
+    for i, (spec, what) in enumerate(event_cases(ctx, rng)):
+        spec = dict(spec, plan=None)
+        path = tuple(rng.path) + ("events", i)
+        st = build(ctx.seed, path, spec)
+        crng = Rng(ctx.seed, *path).fork("cuts")
+        n = len(st.wire)
+        cases = []
+        if what == "switch":
+            s = st.switch_at
+            lo, hi = st.ends[s - 1], st.ends[s]
+            cases.append(("reference", [lo], {}))            # the read ends exactly on the frame boundary
+            for c in range(lo + 1, hi):                      # ... or 1..N-1 bytes into the encrypted frame
+                cases.append(("switch", [c], {}))
+                if crng.chance(0.5):
+                    extra_cuts = crng.sample(range(1, n), min(3, n - 1))
+                    cuts = sorted(set(x for x in extra_cuts if not (lo <= x < hi)) | {c})
+                    cases.append(("switch", cuts, {}))
+        else:
+            # strictly sequential exchange: request i is sent once response i-1 has arrived completely;
+            # the caller of request v gives up after j reads of its response
+            starts = list(st.first) + [n]
+            total = len(st.descs)
+            for v in range(total - 1):
+                a, b = starts[v], starts[v + 1]
+                inner_all = [c for c in range(a + 1, b)]
+                for inner in [[]] + [[c] for c in (inner_all if len(inner_all) <= ctx.scale(40, 400) else crng.sample(inner_all, ctx.scale(40, 400)))] \
+                        + [sorted(crng.sample(inner_all, 2)) for _ in range(6) if len(inner_all) >= 2]:
+                    cuts = sorted(set(starts[1:-1]) | set(inner))
+                    bounds = cuts + [n]
+                    ctl = {}
+                    for i2 in range(1, total):               # request 0 is sent at the start
+                        ctl.setdefault(bisect.bisect_right(bounds, starts[i2]), []).append("send")
+                    first_read = bisect.bisect_right(bounds, a)
+                    # give up after 0 (reference: whole response arrives late) or all-but-the-last read
+                    nreads_v = len(inner) + 1
+                    for j in ([0] if not inner else [nreads_v - 1, crng.randint(1, nreads_v - 1)]):
+                        c2 = {k: list(v2) for k, v2 in ctl.items()}
+                        c2.setdefault(first_read + j, []).append("cancel:%d" % v)
+                        cases.append(("reference" if not inner else "cancel", cuts,
+                                      {"ctl": {str(k): v2 for k, v2 in sorted(c2.items())}, "initial": 1, "victim": v}))
+        plan.append((path, spec, st, what, cases))
+        lines += stream_lines(st) + [model_line(st, cuts) for (_l, cuts, _x) in cases]
+    answers = ctx.lean(lines)
+    off = 0
+    for path, spec, st, what, cases in plan:
+        off += 2 if st.plains is not None else 1
+        refs = {}
+        ref_case = None
+        if HANGS.get(st.target, 0) >= 3:
+            off += len(cases)
+            continue
+        for label, cuts, extra in cases:
+            ans = answers[off]
+            off += 1
+            case = {"target": st.target, "spec": _public(spec), "rng_path": list(path), "cuts": cuts, "kind": "tail",
+                    "event": what, "stream_len": len(st.wire), "probe_at": st.probe_at}
+            case.update(extra)
+            if label == "reference":
+                ref_case = {"cuts": cuts, "ctl": extra.get("ctl"), "initial": extra.get("initial")}
+            case["reference"] = ref_case
+            trace, up = run_real(st, cuts, None, extra.get("initial"), None, extra.get("ctl"))
+            ctx.note("target:" + st.target)
+            ctx.note("cuts:event-" + what)
+            ctx.case([st.target, _public(spec), "event", cuts, extra], label != "reference")
+            if ans == "bad-op":
+                ctx.disagree(case, "n/a", ans, where="driver rejected the line")
+            else:
+                model = parse_model(st, ans)
+                diff = compare_buffers(st, trace, model) if what == "cancel" else compare(st, trace, model)
+                if diff:
+                    ctx.disagree(case, _short(trace), ans[:300], where="event %s: %s" % (what, diff))
+            ctx.validated()
+            exc = next((ob["exc"] for ob in trace if ob["exc"]), None)
+            key = extra.get("victim")
+            if label == "reference":
+                refs[key] = (up, trace[-1]["rest"])
+                want = len(st.descs) if what == "switch" else len(st.descs)
+                if exc or len(up) != want:
+                    ctx.fail("%s:event-%s:reference-incomplete" % (st.target, what), case, exc or _clip(up), "%d items" % want,
+                             "reference run (event exactly at the frame boundary / whole response late) hands %d items upward, "
+                             "expected %d%s" % (len(up), want, ", exception " + exc if exc else ""))
+                    refs.pop(key)
+                continue
+            if key not in refs:
+                continue
+            rup, rrest = refs[key]
+            if exc:
+                ctx.fail("%s:event-%s:exception:%s" % (st.target, what, exc), case, exc, "no exception",
+                         "%s escapes the receive callback when %s (cuts %s)" % (exc, _event_text(what), cuts[:6]))
+            elif up != rup or trace[-1]["rest"] != rrest:
+                ctx.fail("%s:event-%s:delivered-differs" % (st.target, what), case, _clip(up), _clip(rup),
+                         "%s: %d items handed upward, %d when the read ends on the frame boundary (cuts %s)"
+                         % (_event_text(what), len(up), len(rup), cuts[:6]))
+
+
+def _event_text(what):
+    return ("encryption is enabled after the last clear-text frame while the next frame is partly buffered"
+            if what == "switch" else "the caller of a request gives up while its response is half received")
 
 
 # --------------------------------------------------------------------------- very large frames
@@ -1473,6 +1647,12 @@ def replay(ctx, failure):
     spec = dict(case["spec"], plan=None)
     st = build(ctx.seed, tuple(case["rng_path"]), spec)
     n = st.probe_at
+    if case.get("event"):
+        ref = case["reference"]
+        rtrace, rup = run_real(st, ref["cuts"], None, ref.get("initial"), None, ref.get("ctl"))
+        trace, up = run_real(st, case["cuts"], None, case.get("initial"), None, case.get("ctl"))
+        return bool(any(ob["exc"] for ob in trace) or up != rup or trace[-1]["rest"] != rtrace[-1]["rest"]
+                    or len(rup) != len(st.descs))
     if case.get("fault") is not None:
         k = case["fault"]
         rtrace, rup = run_real(st, [], fault=k)
@@ -1490,7 +1670,7 @@ def replay(ctx, failure):
 def shrink(ctx, failure):
     """Fewest cuts that still fail on the real code."""
     case = failure["case"]
-    if "members" in case or case.get("sends") or case.get("large") or case.get("tail"):
+    if "members" in case or case.get("sends") or case.get("large") or case.get("tail") or case.get("event"):
         return failure
     cuts = list(case["cuts"] or [])
     if len(cuts) <= 1:
